@@ -41,7 +41,7 @@ var impls = map[string]func(args []string) string{}
 func register(p *Prop) { props[p.ID] = p }
 
 // opTimeout bounds one implementation op; a hang is an output value.
-var opTimeout = 10 * time.Second
+var opTimeout = 20 * time.Second
 
 // thorough is set for the thorough tier; generators may widen their ranges.
 var thorough bool
@@ -111,6 +111,11 @@ type stats struct {
 }
 
 func main() {
+	if v := os.Getenv("VERIF_OP_TIMEOUT"); v != "" {
+		if d, err := time.ParseDuration(v); err == nil {
+			opTimeout = d
+		}
+	}
 	if len(os.Args) < 2 {
 		fmt.Fprintln(os.Stderr, "usage: corr run|impl|list ...")
 		os.Exit(2)
